@@ -1,7 +1,7 @@
 #!/bin/bash
 # confirm_seed.sh <worktree> <k> <prop>  : re-verifies a sub-agent's seeded defect in its scratch worktree and
 # files it under /verif/seeded/<prop>_<k>/ with my own confirmation record.
-WT=$1; K=$2; P=$3
+WT=$1; K=$2; P=$3; FEAT=${4:+--features $4}
 OUT=$WT/_out/$K
 DEST=/verif/seeded/${P}_$K
 export CARGO_TARGET_DIR=$WT/target CARGO_NET_OFFLINE=true
@@ -9,9 +9,9 @@ cd $WT || exit 1
 git checkout -q -- palette palette_derive
 cp $OUT/demo.rs palette/tests/seeded_demo_$K.rs 2>/dev/null
 # demo without patch
-cargo test -p palette --test seeded_demo_$K --offline -j 8 > $OUT/confirm_demo_clean.log 2>&1; DC=$?
+cargo test -p palette $FEAT --test seeded_demo_$K --offline -j 8 > $OUT/confirm_demo_clean.log 2>&1; DC=$?
 git apply $OUT/patch.diff || { echo "patch does not apply"; exit 1; }
-cargo test -p palette --test seeded_demo_$K --offline -j 8 > $OUT/confirm_demo_patched.log 2>&1; DP=$?
+cargo test -p palette $FEAT --test seeded_demo_$K --offline -j 8 > $OUT/confirm_demo_patched.log 2>&1; DP=$?
 # full suite with patch, excluding the demo files
 mkdir -p /tmp/demo_stash_$P_$K; mv palette/tests/seeded_demo_*.rs /tmp/demo_stash_$P_$K/ 2>/dev/null
 cargo test --workspace --no-fail-fast --offline -j 8 > $OUT/confirm_suite_patched.log 2>&1; SP=$?
@@ -28,7 +28,7 @@ except Exception as e: m={"summary":"(agent meta unreadable: %s)"%e}
 p,f=(passed.split()+["0","0"])[:2]
 m["property"]=prop
 m["confirmed_by_me"]={"demo_passes_without_patch": dc=="0", "demo_fails_with_patch": dp!="0", "suite_exit_with_patch": int(sp), "suite_tests_passed": int(p), "suite_tests_failed": int(f),
-  "ran": ["cargo test -p palette --test seeded_demo_K --offline (clean, then patched)", "cargo test --workspace --no-fail-fast --offline (patched, demo files removed)"]}
+  "ran": ["cargo test -p palette [--features F] --test seeded_demo_K --offline (clean, then patched)", "cargo test --workspace --no-fail-fast --offline (patched, demo files removed)"]}
 json.dump(m,open(dst,"w"),indent=1)
 print(prop, "demo_clean_ok" if dc=="0" else "DEMO_CLEAN_FAILS", "demo_patched_fails" if dp!="0" else "DEMO_PATCHED_PASSES", "suite", p, f)
 PY
